@@ -262,6 +262,75 @@ func (t *dtr) apiCall(x *ast.CallExpr, tv types.TypeAndValue) ([]bnd, string, bo
 	if !ok {
 		return nil, "", false
 	}
+	// sa.StreamRegisterList(ctx, rl, ValueHandler{Number: func(v NumberRegisterValue) { rv.NumberValues[v.Name()] = v }, ...}):
+	// the four collector closures.  Each must store its argument under its name into the map of its own kind of one
+	// RegisterValues variable; the call is then the stream with all four handlers set, and afterwards that variable
+	// holds what the invocations made during the call put into it, in their order (p_collect_since).
+	if sel.Sel.Name == "StreamRegisterList" && t.isRecv(sel.X) && len(x.Args) == 3 {
+		if cl, ok := x.Args[2].(*ast.CompositeLit); ok && typeName(t.info.Types[cl].Type) == "vedirectapi.ValueHandler" {
+			mapOf := map[string]string{"Number": "NumberValues", "Text": "TextValues", "Enum": "EnumValues", "FieldList": "FieldListValues"}
+			seen := map[string]bool{}
+			var target *ast.Ident
+			for _, el := range cl.Elts {
+				kv, ok := el.(*ast.KeyValueExpr)
+				if !ok {
+					t.bad(x, "ValueHandler literal")
+				}
+				k := types.ExprString(kv.Key)
+				fl, ok := kv.Value.(*ast.FuncLit)
+				if !ok || mapOf[k] == "" || seen[k] || len(fl.Type.Params.List) != 1 || len(fl.Type.Params.List[0].Names) != 1 || len(fl.Body.List) != 1 {
+					t.bad(x, "ValueHandler literal: handler %s is not a collector closure", k)
+				}
+				pn := fl.Type.Params.List[0].Names[0].Name
+				as, ok := fl.Body.List[0].(*ast.AssignStmt)
+				if !ok || as.Tok != token.ASSIGN || len(as.Lhs) != 1 || len(as.Rhs) != 1 || types.ExprString(as.Rhs[0]) != pn {
+					t.bad(x, "ValueHandler literal: handler %s is not a collector closure", k)
+				}
+				ix, ok := as.Lhs[0].(*ast.IndexExpr)
+				if !ok || types.ExprString(ix.Index) != pn+".Name()" {
+					t.bad(x, "ValueHandler literal: handler %s does not store under the value's name", k)
+				}
+				ms, ok := ix.X.(*ast.SelectorExpr)
+				if !ok || ms.Sel.Name != mapOf[k] {
+					t.bad(x, "ValueHandler literal: handler %s does not store into %s", k, mapOf[k])
+				}
+				id, ok := ms.X.(*ast.Ident)
+				if !ok || typeName(t.info.Types[id].Type) != "vedirectapi.RegisterValues" || (target != nil && t.info.ObjectOf(id) != t.info.ObjectOf(target)) {
+					t.bad(x, "ValueHandler literal: handler %s stores into another variable", k)
+				}
+				target = id
+				seen[k] = true
+			}
+			if len(seen) != 4 {
+				t.bad(x, "ValueHandler literal: %d of 4 collectors", len(seen))
+			}
+			// the variable must have been given four made maps by a statement of the function body that precedes the
+			// call (a write to a nil map panics)
+			made := false
+			for _, st := range t.curDecl.Body.List {
+				if st.End() > x.Pos() {
+					break
+				}
+				if as, ok := st.(*ast.AssignStmt); ok && len(as.Lhs) == 1 && len(as.Rhs) == 1 {
+					if id, ok := as.Lhs[0].(*ast.Ident); ok && t.info.ObjectOf(id) == t.info.ObjectOf(target) {
+						_, isLit := as.Rhs[0].(*ast.CompositeLit)
+						made = isLit // the literal itself is checked where it is translated
+					}
+				}
+			}
+			if !made {
+				t.bad(x, "collectors store into maps that were not made before the call")
+			}
+			p, a := t.args(x.Args[:2])
+			n0, v := t.tmp(), t.tmp()
+			rv := t.varName(target)
+			p = append(p, bnd{n0, "p_out_len", false},
+				bnd{v, fmt.Sprintf("go_StreamRegisterList c %s %s (mkHandlers true true true true)", a[0], a[1]), false},
+				bnd{rv, fmt.Sprintf("p_collect_since %s %s", n0, rv), false})
+			t.calls["StreamRegisterList"] = true
+			return p, v, true
+		}
+	}
 	// sa.Vd.M(args): the translated driver
 	if in, ok := sel.X.(*ast.SelectorExpr); ok && in.Sel.Name == "Vd" && (t.isRecv(in.X) || t.isApiObj(in.X)) {
 		switch sel.Sel.Name {
